@@ -575,14 +575,23 @@ class SimAccessory:
                 return conn.send_http(200, "OK", b"\x06\x05\x04", ctype=TLVCT)
             pv = conn.verify
             m4 = pv.handle_m3(list(d.items()))
-            conn.send_http(200, "OK", tlv_enc(m4), ctype=TLVCT, delay=self.verify_delay)
-            if pv.verified:
+            def install():
                 conn.c2a_key = pv.key(b"Control-Salt", b"Control-Write-Encryption-Key")
                 conn.a2c_key = pv.key(b"Control-Salt", b"Control-Read-Encryption-Key")
                 conn.secure = conn.secure_rx = True
                 conn.verified_at = self.loop.time()
                 if self.on_secure:
                     self.on_secure(conn)
+            if self.verify_delay:
+                # a slow accessory: M4 leaves (and the session starts on its side) only after the delay
+                if pv.verified:
+                    self.loop.call_later(self.verify_delay, lambda: install() if conn.open and not conn.peer_closed else None)
+                self.loop.call_later(self.verify_delay, lambda: conn.send_http(200, "OK", tlv_enc(m4), ctype=TLVCT) if conn.open and not conn.peer_closed and not conn.secure else
+                                     (conn.send_wire(("HTTP/1.1 200 OK\r\nContent-Type: %s\r\nContent-Length: %d\r\n\r\n" % (TLVCT, len(tlv_enc(m4)))).encode() + tlv_enc(m4)) if conn.open and not conn.peer_closed else None))
+                return None
+            conn.send_http(200, "OK", tlv_enc(m4), ctype=TLVCT)
+            if pv.verified:
+                install()
             return None
         return conn.send_http(400, "Bad Request")
 
